@@ -23,6 +23,7 @@ for p in props:
         "level_claimed": {
             "category": "other",
             "text": ("Exact static decision of structural necessary conditions of the property (" + mod.EXPLANATION +
+                     ("; further clauses: " + mod.EXPLANATION_2 if getattr(mod, "EXPLANATION_2", "") else "") +
                      ") on the type-checked, drop-elaborated MIR of the current tree; it decides those clauses on every control-flow path, "
                      "not the behaviour over all schedules/inputs."),
             "design_ref": "DESIGN.md §4 " + pid,
